@@ -20,6 +20,9 @@ TIE_A = ["code:fuzzylite.term.Function.infix_to_postfix", "code:fuzzylite.term.F
 TIE_A += ["code:fuzzylite.factory.ConstructionFactory.construct", "code:fuzzylite.factory.CloningFactory.copy",
           "code:fuzzylite.factory.FunctionFactory.operators", "code:fuzzylite.factory.FunctionFactory.functions",
           "code:fuzzylite.factory.FunctionFactory._precedence"]
+TIE_A += ["code:fuzzylite.term.Function.format_infix", "code:fuzzylite.term.Function.Node.value",
+          "code:fuzzylite.term.Function.Node.prefix", "code:fuzzylite.term.Function.Node.infix",
+          "code:fuzzylite.term.Function.Node.postfix"]
 RULE = ("typed expression trees to depth 5 over all 13 operators, all 34 functions/constants, literals and 1-3 engine / term "
         "variables and x, written with minimal | random redundant | full parentheses and random spacing, evaluated on "
         "scalars and on arrays (mixed with scalars); ill-formed variants (operand deleted, arity changed, parenthesis "
